@@ -25,7 +25,14 @@ def explore_history(args):
     if rc != 0:
         problems.append({'kind': 'harness-crash', 'detail': err[-500:]})
         return {'seed': seed, 'opts': opts, 'ops': ops, 'problems': problems, 'stats': stats}
-    problems += check_protocol(evs, shadow, calls, ops, None, k2=k2, opts=opts, batches=batches, work=work, seed=seed, stats=stats)
+    t_lift = time.time()
+    # the protocol check (lifting + fs_wf + model recovery) is the expensive part: in the quick tier it runs on the
+    # corpus histories and on the first two generated histories
+    if tier != 'quick' or idx >= 1000 or idx < 2:
+        problems += check_protocol(evs, shadow, calls, ops, None, k2=k2, opts=opts, batches=batches, work=work, seed=seed, stats=stats,
+                                   samples=(6 if tier == 'quick' else 10))
+        stats['lifted_histories'] = 1
+    stats['lift_s'] = round(time.time() - t_lift, 1)
     info = k3lib.batch_positions(evs, ops, batches, calls)
     points = list(range(1, len(evs) + 1))
     if len(points) > max_points:
